@@ -11,9 +11,12 @@ import (
 
 func checkC06(c *Ctx) {
 	r := c.R
+	r.Rule("R06.5", "first line / remaining lines: every search result on the print path (strings/bytes Index*) is split at the absent/found boundary (-1 | >= 0); a test r > 0 treats a line break or marker at position 0 as absent")
+	r.Rule("R06.6", "the attributes as key=value: the loop of serializeAttrs over the member list has its natural exit only")
 	r.Rule("R06.1", "SGR typestate: treating every write of a constant on the print path as an event (\"\\x1b[0m\" resets, any other \"\\x1b[\" switches a colour on, '\\n' in a constant or as a Join separator is a line break), a may-analysis with function summaries over the colored-mode call tree (dependency colour helpers included, testing/debug dump excluded) shows that no line break is written while a colour may be on and that the record ends in the clean state")
 	r.Rule("R06.2", "values contribute no raw bytes: in colored mode no site copies an attribute value, error text or fallback formatting into the record verbatim")
 	r.Rule("R06.3", "layout: timestamp, logger name, severity tag, first line, attributes, caller, remaining lines, in this order; the tag is ShortTag(levelOutputWidth) between brackets; the first line is right-padded to minimalMessageWidth; remaining lines are indented by padFunc(.., \" \", 4, ..) and follow a line break; attributes are sorted (R07.3)")
+	r.Rule("R19.1", "(shared with C19) the record is the bytes the encoder appended: the write side of the formatting buffer is isomorphic to bytes.Buffer")
 	r.Rule("R05.3", "(shared with C05) the quoting routine behind every quoted attribute value lets no control byte through: appendQuotedWith appends only the quote, \\xHH of an invalid byte and the output of appendEscapedRune, which copies a rune verbatim only under a printability test")
 	r.Rule("R09.2", "(shared with C09) the layout depends on the configuration in force, not on earlier records: nothing on the print path stores to package-level state (a tag or padding computed for one width is not kept for another)")
 	r.Rule("R17.6", "(shared with C17) the level tag of a given width: every tag literal and every tag a registration stores under width n has n characters")
@@ -47,6 +50,9 @@ func checkC06(c *Ctx) {
 		fixedMembersAlways(c, p, m, "R06.3", []Mode{mode})
 		c02Pool(c, p, m)
 		c07Sort(c, p, m)
+		c19WriteSide(c, p)
+		attrsTraversal(c, p, "R06.6")
+		indexFoundTests(c, p, sortedTree(p, m), "R06.5")
 		messageIdentity(c, p, "R05.10")
 		c08Stores(c, p, m)
 		c05Quoting(c, p, m, mr)
